@@ -350,8 +350,217 @@ static int handle_cap(size_t nw, char **w) {
 	return 1;
 }
 
+
+/* ------------------------------------------------------------------ failure-then-cleanup / failure-then-retry
+ * Loaders and initialisers that allocate into or fill a CALLER-OWNED object are run with a file that fails at
+ * some stage; then the caller does what callers do: the matching cleanup, a retry with a good file on the SAME
+ * object, or carries on.  A stale pointer / length left behind shows as STALE in the line or as an ASan report
+ * (double free, use after free).  Files live in $C06_TMP (the check's build directory). */
+#include <sys/stat.h>
+static char fdir[400];
+static int files_ready;
+static const char *fpath(const char *name) { static char b[8][512]; static int i; i = (i + 1) & 7; snprintf(b[i], sizeof b[i], "%s/%s", fdir, name); return b[i]; }
+static void wfile(const char *name, const uint8_t *d, size_t n) { FILE *f = fopen(fpath(name), "wb"); if (f) { fwrite(d, 1, n, f); fclose(f); } }
+static void make_files(void) {
+	static uint8_t chain[8192], one[4096]; size_t cl = 0, ol; char *txt = NULL; size_t tl = 0; FILE *ms; int i;
+	const char *base = getenv("C06_TMP");
+	if (files_ready) return;
+	snprintf(fdir, sizeof fdir, "%s/c06_%d", base ? base : "/tmp", (int)getpid()); mkdir(base ? base : "/tmp", 0700); mkdir(fdir, 0700);
+	/* chain: leaf (key 1) + encryption cert (key 2) + root (key 0) */
+	cl = mk_cert(chain, sizeof chain, 0, "leaf", 1, 0, 1); cl += mk_cert(chain + cl, sizeof chain - cl, 0, "kenc", 2, 0, 1); cl += mk_cert(chain + cl, sizeof chain - cl, 1, "ROOT", 0, 0, 1);
+	ms = open_memstream(&txt, &tl); x509_certs_to_pem(chain, cl, ms); fclose(ms);
+	wfile("good.pem", (uint8_t *)txt, tl);
+	wfile("empty.pem", (uint8_t *)"", 0);
+	{ uint8_t g[300]; for (i = 0; i < 300; i++) g[i] = (uint8_t)(i * 37 + 11); wfile("garbage.pem", g, sizeof g); }
+	wfile("binary.pem", chain, cl);
+	{ char *second = strstr(txt + 10, "-----BEGIN"); size_t k = second ? (size_t)(second - txt) : tl / 2;
+	  wfile("trunc2.pem", (uint8_t *)txt, k + 200);                                   /* valid certificate, second block cut in the base64 body */
+	  wfile("cutline.pem", (uint8_t *)txt, k + 27 + 64 * 3 + 30);                     /* ... cut in the middle of a line */
+	  { char *t2 = malloc(tl + 64); memcpy(t2, txt, tl); t2[k + 100] = '!'; t2[k + 101] = '*'; wfile("garb2.pem", (uint8_t *)t2, tl); free(t2); }   /* bad characters in block 2 */
+	  { char *e = strstr(second ? second : txt, "-----END"); size_t ke = e ? (size_t)(e - txt) : tl; wfile("noend.pem", (uint8_t *)txt, ke); }
+	  wfile("first.pem", (uint8_t *)txt, k); }
+	{ char *big = malloc(tl * 12 + 1); for (i = 0; i < 12; i++) memcpy(big + tl * i, txt, tl); wfile("many.pem", (uint8_t *)big, tl * 12); free(big); }
+	free(txt);
+	{ uint8_t subj[256], req[1024]; size_t sl, rl = 0; uint8_t *rp = req; mk_name(subj, &sl, sizeof subj, "requester");
+	  x509_req_sign_to_der(X509_version_v1, subj, sl, &keys[1], subj, 0, OID_sm2sign_with_sm3, &keys[1], SM2_DEFAULT_ID, SM2_DEFAULT_ID_LENGTH, &rp, &rl);
+	  txt = NULL; tl = 0; ms = open_memstream(&txt, &tl); x509_req_to_pem(req, rl, ms); fclose(ms); wfile("req.pem", (uint8_t *)txt, tl); wfile("reqtrunc.pem", (uint8_t *)txt, tl / 2); free(txt); }
+	ol = mk_cert(one, sizeof one, 0, "leaf", 1, 0, 1); txt = NULL; tl = 0; ms = open_memstream(&txt, &tl); x509_cert_to_pem(one, ol, ms); fclose(ms); wfile("cert.pem", (uint8_t *)txt, tl); free(txt);
+	for (i = 0; i < 3; i++) { char nm[32]; FILE *f; snprintf(nm, sizeof nm, "key%d.pem", i); f = fopen(fpath(nm), "w"); sm2_private_key_info_encrypt_to_pem(&keys[i], "pw", f); fclose(f); }
+	{ FILE *f = fopen(fpath("key1.pem"), "r"); char kb[2048]; size_t kn = fread(kb, 1, sizeof kb, f); fclose(f); wfile("keytrunc.pem", (uint8_t *)kb, kn / 2); }
+	files_ready = 1;
+}
+static const char *vfile(const char *v) {      /* variant name -> path */
+	if (!strcmp(v, "missing")) return fpath("does-not-exist.pem");
+	{ static char n[64]; snprintf(n, sizeof n, "%s.pem", v); return fpath(n); }
+}
+typedef int (*newfn)(uint8_t **, size_t *, const char *);
+static void seq_new(newfn f, const char *bad, const char *good) {
+	uint8_t *out = NULL; size_t len = 0; int r1, r2;
+	r1 = f(&out, &len, vfile(bad)); printf("r1=%d", r1);
+	if (r1 != 1) { if (out) { printf(" STALE-POINTER"); free(out); out = NULL; } }      /* what an owner does in its cleanup */
+	else { free(out); out = NULL; }
+	r2 = f(&out, &len, vfile(good)); printf(" r2=%d", r2); if (r2 == 1) { printf(" len=%zu first=%02x", len, out[0]); free(out); } else if (out) printf(" STALE-POINTER");
+}
+static void seq_ctx(const char *what, const char *v1, const char *v2, const char *after) {
+	TLS_CTX *ctx = malloc(sizeof *ctx); int r1, r2 = 9, r3 = 9, tlcp = !strcmp(what, "tlcp");
+	tls_ctx_init(ctx, tlcp ? TLS_protocol_tlcp : TLS_protocol_tls12, !strcmp(what, "ca"));
+	if (!strcmp(what, "ca")) r1 = tls_ctx_set_ca_certificates(ctx, vfile(v1), 3);
+	else if (tlcp) r1 = tls_ctx_set_tlcp_server_certificate_and_keys(ctx, vfile(v1), vfile(v2), strstr(after, "wrongpass") ? "no" : "pw", vfile("key2"), "pw");
+	else r1 = tls_ctx_set_certificate_and_key(ctx, vfile(v1), vfile(v2), strstr(after, "wrongpass") ? "no" : "pw");
+	printf("r1=%d", r1);
+	if (r1 != 1 && (ctx->cacerts || ctx->certs)) printf(" STALE-POINTER");
+	if (r1 != 1 && ((!ctx->cacerts && ctx->cacertslen) || (!ctx->certs && ctx->certslen))) printf(" STALE-LENGTH");
+	if (strstr(after, "retry")) {
+		if (!strcmp(what, "ca")) r2 = tls_ctx_set_ca_certificates(ctx, vfile("good"), 3);
+		else if (tlcp) r2 = tls_ctx_set_tlcp_server_certificate_and_keys(ctx, vfile("good"), vfile("key1"), "pw", vfile("key2"), "pw");
+		else r2 = tls_ctx_set_certificate_and_key(ctx, vfile("good"), vfile("key1"), "pw");
+		printf(" r2=%d", r2);
+	}
+	if (strstr(after, "init")) { TLS_CONNECT *conn = malloc(sizeof *conn); r3 = tls_init(conn, ctx); printf(" r3=%d", r3); tls_cleanup(conn); free(conn); }
+	tls_ctx_cleanup(ctx); tls_ctx_cleanup(ctx);
+	free(ctx);
+}
+static int handle_seq(size_t nw, char **w) {
+	if (strcmp(w[0], "seq") || nw < 3) return 0;
+	ent_seed(0x5E9, -1); make_files();
+	if (!strcmp(w[1], "certs_new") && nw == 4) seq_new(x509_certs_new_from_file, w[2], w[3]);
+	else if (!strcmp(w[1], "cert_new") && nw == 4) seq_new(x509_cert_new_from_file, w[2], w[3]);
+	else if (!strcmp(w[1], "req_new") && nw == 4) seq_new(x509_req_new_from_file, w[2], w[3]);
+	else if (!strcmp(w[1], "ctx") && nw == 6) seq_ctx(w[2], w[3], w[4], w[5]);
+	else printf("ERR bad-seq");
+	return 1;
+}
+
+
+/* ------------------------------------------------------------------ out-parameters are fully determined
+ * Decoders with several out-parameters / struct targets are run twice on the same input, the targets pre-filled with
+ * two different poison patterns (0x5a.., 0xa5..); after a success every out-parameter must hold the same value in both
+ * runs - a field the callee leaves unset keeps its poison and differs.  No model is involved: this is a test. */
+static int det_bad;
+static void det_report(const char *what, int ra, int rb, const void *a, const void *b, size_t n) {
+	if (ra != rb) { printf(" %s:RET-DIFFERS(%d,%d)", what, ra, rb); det_bad = 1; }
+	else if (ra == 1 && memcmp(a, b, n)) { size_t i; const uint8_t *x = a, *y = b; for (i = 0; i < n && x[i] == y[i]; i++) ; printf(" %s:UNDETERMINED@%zu", what, i); det_bad = 1; }
+	else printf(" %s=%d", what, ra);
+}
+typedef struct { const uint8_t *serial, *issuer, *subject, *iuid, *suid, *exts, *sig; size_t serial_len, issuer_len, subject_len, iuid_len, suid_len, exts_len, sig_len; time_t nb, na; SM2_KEY key; int version, inner_alg, sig_alg, pad_; } det_cert_t;
+typedef struct { size_t nodes_cnt; const uint8_t *val; size_t vlen; int oid, critical; uint32_t nodes[32]; } det_ext_t;
+static int det_cert_call(det_cert_t *o, const uint8_t *a, size_t al) {
+	return x509_cert_get_details(a, al, &o->version, &o->serial, &o->serial_len, &o->inner_alg, &o->issuer, &o->issuer_len, &o->nb, &o->na, &o->subject, &o->subject_len,
+		&o->key, &o->iuid, &o->iuid_len, &o->suid, &o->suid_len, &o->exts, &o->exts_len, &o->sig_alg, &o->sig, &o->sig_len); }
+static void det_cert(xb in) {
+	det_cert_t A, B; int ra, rb; memset(&A, 0x5a, sizeof A); memset(&B, 0xa5, sizeof B); A.pad_ = B.pad_ = 0;
+	ra = det_cert_call(&A, in.p, in.n); rb = det_cert_call(&B, in.p, in.n); det_report("details", ra, rb, &A, &B, sizeof A);
+	if (ra == 1 && rb == 1 && A.exts && A.exts == B.exts) {
+		const uint8_t *pa = A.exts, *pb = A.exts; size_t la = A.exts_len, lb = A.exts_len; int n = 0;
+		while (la && n++ < 16) { det_ext_t EA, EB; int ea, eb; memset(&EA, 0x5a, sizeof EA); memset(&EB, 0xa5, sizeof EB);
+			ea = x509_ext_from_der(&EA.oid, EA.nodes, &EA.nodes_cnt, &EA.critical, &EA.val, &EA.vlen, &pa, &la);
+			eb = x509_ext_from_der(&EB.oid, EB.nodes, &EB.nodes_cnt, &EB.critical, &EB.val, &EB.vlen, &pb, &lb);
+			if (ea == 1 && eb == 1) { memset(EA.nodes + (EA.nodes_cnt <= 32 ? EA.nodes_cnt : 0), 0, sizeof(uint32_t) * (32 - (EA.nodes_cnt <= 32 ? EA.nodes_cnt : 0))); memset(EB.nodes + (EB.nodes_cnt <= 32 ? EB.nodes_cnt : 0), 0, sizeof(uint32_t) * (32 - (EB.nodes_cnt <= 32 ? EB.nodes_cnt : 0))); }
+			det_report("ext", ea, eb, &EA, &EB, sizeof EA);
+			if (ea != 1) break;
+			if (EA.oid == OID_ce_basic_constraints) { struct { int ca, plc; } CA, CB; const uint8_t *q = EA.val; size_t ql = EA.vlen; int ca, cb; memset(&CA, 0x5a, sizeof CA); memset(&CB, 0xa5, sizeof CB);
+				ca = x509_basic_constraints_from_der(&CA.ca, &CA.plc, &q, &ql); q = EA.val; ql = EA.vlen; cb = x509_basic_constraints_from_der(&CB.ca, &CB.plc, &q, &ql); det_report("bc", ca, cb, &CA, &CB, sizeof CA); }
+			if (EA.oid == OID_ce_authority_key_identifier) { struct { const uint8_t *k, *i, *s; size_t kl, il, sl; } KA, KB; const uint8_t *q = EA.val; size_t ql = EA.vlen; int ka, kb; memset(&KA, 0x5a, sizeof KA); memset(&KB, 0xa5, sizeof KB);
+				ka = x509_authority_key_identifier_from_der(&KA.k, &KA.kl, &KA.i, &KA.il, &KA.s, &KA.sl, &q, &ql); q = EA.val; ql = EA.vlen; kb = x509_authority_key_identifier_from_der(&KB.k, &KB.kl, &KB.i, &KB.il, &KB.s, &KB.sl, &q, &ql); det_report("aki", ka, kb, &KA, &KB, sizeof KA); }
+		}
+	}
+}
+static void det_crl(xb in) {
+	struct { const uint8_t *issuer, *rev, *exts, *sig; size_t il, rl, el, sl; time_t tu, nu; int version, inner_alg, sig_alg, pad_; } A, B; int ra, rb; memset(&A, 0x5a, sizeof A); memset(&B, 0xa5, sizeof B); A.pad_ = B.pad_ = 0;
+	ra = x509_crl_get_details(in.p, in.n, &A.version, &A.inner_alg, &A.issuer, &A.il, &A.tu, &A.nu, &A.rev, &A.rl, &A.exts, &A.el, &A.sig_alg, &A.sig, &A.sl);
+	rb = x509_crl_get_details(in.p, in.n, &B.version, &B.inner_alg, &B.issuer, &B.il, &B.tu, &B.nu, &B.rev, &B.rl, &B.exts, &B.el, &B.sig_alg, &B.sig, &B.sl);
+	det_report("details", ra, rb, &A, &B, sizeof A);
+}
+static void det_req(xb in) {
+	struct { const uint8_t *subj, *attrs, *sig; size_t sl, al, gl; SM2_KEY key; int version, sig_alg; } A, B; int ra, rb; memset(&A, 0x5a, sizeof A); memset(&B, 0xa5, sizeof B);
+	ra = x509_req_get_details(in.p, in.n, &A.version, &A.subj, &A.sl, &A.key, &A.attrs, &A.al, &A.sig_alg, &A.sig, &A.gl);
+	rb = x509_req_get_details(in.p, in.n, &B.version, &B.subj, &B.sl, &B.key, &B.attrs, &B.al, &B.sig_alg, &B.sig, &B.gl);
+	det_report("details", ra, rb, &A, &B, sizeof A);
+}
+static void det_cms(xb in) {
+	struct { const uint8_t *c; size_t cl; int ct, pad_; } A, B; const uint8_t *p; size_t l; int ra, rb; memset(&A, 0x5a, sizeof A); memset(&B, 0xa5, sizeof B); A.pad_ = B.pad_ = 0;
+	p = in.p; l = in.n; ra = cms_content_info_from_der(&A.ct, &A.c, &A.cl, &p, &l); p = in.p; l = in.n; rb = cms_content_info_from_der(&B.ct, &B.c, &B.cl, &p, &l);
+	det_report("ci", ra, rb, &A, &B, sizeof A);
+	if (ra != 1 || rb != 1 || !A.c) return;
+	if (A.ct == OID_cms_signed_data) {
+		struct { size_t dac; const uint8_t *c, *certs, *crls, *si; size_t cl, certsl, crlsl, sil; int ver, ct; int da[4]; } SA, SB; const uint8_t *q; size_t ql; int sa, sb;
+		memset(&SA, 0x5a, sizeof SA); memset(&SB, 0xa5, sizeof SB);
+		q = A.c; ql = A.cl; sa = cms_signed_data_from_der(&SA.ver, SA.da, &SA.dac, 4, &SA.ct, &SA.c, &SA.cl, &SA.certs, &SA.certsl, &SA.crls, &SA.crlsl, &SA.si, &SA.sil, &q, &ql);
+		q = A.c; ql = A.cl; sb = cms_signed_data_from_der(&SB.ver, SB.da, &SB.dac, 4, &SB.ct, &SB.c, &SB.cl, &SB.certs, &SB.certsl, &SB.crls, &SB.crlsl, &SB.si, &SB.sil, &q, &ql);
+		if (sa == 1 && sb == 1 && SA.dac <= 4 && SB.dac <= 4) { memset(SA.da + SA.dac, 0, sizeof(int) * (4 - SA.dac)); memset(SB.da + SB.dac, 0, sizeof(int) * (4 - SB.dac)); }
+		det_report("signed", sa, sb, &SA, &SB, sizeof SA);
+		if (sa == 1 && sb == 1 && SA.si && SA.si == SB.si) { const uint8_t *pa = SA.si, *pb = SA.si; size_t la = SA.sil, lb = SA.sil; int n = 0;
+			while (la && n++ < 4) { struct { const uint8_t *iss, *ser, *aa, *ed, *ua; size_t il, sl, aal, edl, ual; int ver, da, sa, pad_; } IA, IB; int ia, ib; memset(&IA, 0x5a, sizeof IA); memset(&IB, 0xa5, sizeof IB); IA.pad_ = IB.pad_ = 0;
+				ia = cms_signer_info_from_der(&IA.ver, &IA.iss, &IA.il, &IA.ser, &IA.sl, &IA.da, &IA.aa, &IA.aal, &IA.sa, &IA.ed, &IA.edl, &IA.ua, &IA.ual, &pa, &la);
+				ib = cms_signer_info_from_der(&IB.ver, &IB.iss, &IB.il, &IB.ser, &IB.sl, &IB.da, &IB.aa, &IB.aal, &IB.sa, &IB.ed, &IB.edl, &IB.ua, &IB.ual, &pb, &lb);
+				det_report("signer", ia, ib, &IA, &IB, sizeof IA); if (ia != 1) break; } }
+	} else if (A.ct == OID_cms_enveloped_data) {
+		struct { const uint8_t *ri, *eci; size_t ril, ecil; int ver, pad_; } EA, EB; const uint8_t *q; size_t ql; int ea, eb; memset(&EA, 0x5a, sizeof EA); memset(&EB, 0xa5, sizeof EB); EA.pad_ = EB.pad_ = 0;
+		q = A.c; ql = A.cl; ea = cms_enveloped_data_from_der(&EA.ver, &EA.ri, &EA.ril, &EA.eci, &EA.ecil, &q, &ql); q = A.c; ql = A.cl; eb = cms_enveloped_data_from_der(&EB.ver, &EB.ri, &EB.ril, &EB.eci, &EB.ecil, &q, &ql);
+		det_report("enveloped", ea, eb, &EA, &EB, sizeof EA);
+		if (ea == 1 && eb == 1 && EA.ri && EA.ri == EB.ri) {
+			struct { const uint8_t *iss, *ser, *par, *ek; size_t il, sl, pl, ekl; int ver, alg; } RA, RB; const uint8_t *pa = EA.ri, *pb = EA.ri; size_t la = EA.ril, lb = EA.ril; int r1, r2; memset(&RA, 0x5a, sizeof RA); memset(&RB, 0xa5, sizeof RB);
+			r1 = cms_recipient_info_from_der(&RA.ver, &RA.iss, &RA.il, &RA.ser, &RA.sl, &RA.alg, &RA.par, &RA.pl, &RA.ek, &RA.ekl, &pa, &la);
+			r2 = cms_recipient_info_from_der(&RB.ver, &RB.iss, &RB.il, &RB.ser, &RB.sl, &RB.alg, &RB.par, &RB.pl, &RB.ek, &RB.ekl, &pb, &lb); det_report("rcpt", r1, r2, &RA, &RB, sizeof RA); }
+		if (ea == 1 && eb == 1 && EA.eci && EA.eci == EB.eci) {
+			struct { const uint8_t *iv, *ec, *s1, *s2; size_t ivl, ecl, s1l, s2l; int ct, alg; } CA, CB; const uint8_t *pa = EA.eci, *pb = EA.eci; size_t la = EA.ecil, lb = EA.ecil; int c1, c2; memset(&CA, 0x5a, sizeof CA); memset(&CB, 0xa5, sizeof CB);
+			c1 = cms_enced_content_info_from_der(&CA.ct, &CA.alg, &CA.iv, &CA.ivl, &CA.ec, &CA.ecl, &CA.s1, &CA.s1l, &CA.s2, &CA.s2l, &pa, &la);
+			c2 = cms_enced_content_info_from_der(&CB.ct, &CB.alg, &CB.iv, &CB.ivl, &CB.ec, &CB.ecl, &CB.s1, &CB.s1l, &CB.s2, &CB.s2l, &pb, &lb); det_report("enced", c1, c2, &CA, &CB, sizeof CA); }
+	}
+}
+#define DET_STRUCT(NAME, T, FN) static void NAME(xb in) { T *A = malloc(sizeof(T)), *B = malloc(sizeof(T)); const uint8_t *p; size_t l; int ra, rb; \
+	memset(A, 0x5a, sizeof(T)); memset(B, 0xa5, sizeof(T)); p = in.p; l = in.n; ra = FN(A, &p, &l); p = in.p; l = in.n; rb = FN(B, &p, &l); det_report(#FN, ra, rb, A, B, sizeof(T)); free(A); free(B); }
+DET_STRUCT(det_sm9sig, SM9_SIGNATURE, sm9_signature_from_der)
+DET_STRUCT(det_sm9smpk, SM9_SIGN_MASTER_KEY, sm9_sign_master_public_key_from_der)
+DET_STRUCT(det_sm9smsk, SM9_SIGN_MASTER_KEY, sm9_sign_master_key_from_der)
+DET_STRUCT(det_sm9sk, SM9_SIGN_KEY, sm9_sign_key_from_der)
+DET_STRUCT(det_sm9empk, SM9_ENC_MASTER_KEY, sm9_enc_master_public_key_from_der)
+DET_STRUCT(det_sm9emsk, SM9_ENC_MASTER_KEY, sm9_enc_master_key_from_der)
+DET_STRUCT(det_sm9ek, SM9_ENC_KEY, sm9_enc_key_from_der)
+DET_STRUCT(det_sm2pub, SM2_KEY, sm2_public_key_info_from_der)
+DET_STRUCT(det_sm2priv, SM2_KEY, sm2_private_key_from_der)
+/* password-encrypted SM9 keys: every loader is fed every kind of key (right and wrong password); heap targets */
+static void fz_sm9p8(const char *loader, const char *pass, xb in) {
+	const uint8_t *p = in.p; size_t l = in.n; int r = -9;
+	if (!strcmp(loader, "smsk")) { SM9_SIGN_MASTER_KEY *k = malloc(sizeof *k); r = sm9_sign_master_key_info_decrypt_from_der(k, pass, &p, &l); free(k); }
+	else if (!strcmp(loader, "sk")) { SM9_SIGN_KEY *k = malloc(sizeof *k); r = sm9_sign_key_info_decrypt_from_der(k, pass, &p, &l); free(k); }
+	else if (!strcmp(loader, "emsk")) { SM9_ENC_MASTER_KEY *k = malloc(sizeof *k); r = sm9_enc_master_key_info_decrypt_from_der(k, pass, &p, &l); free(k); }
+	else if (!strcmp(loader, "ek")) { SM9_ENC_KEY *k = malloc(sizeof *k); r = sm9_enc_key_info_decrypt_from_der(k, pass, &p, &l); free(k); }
+	printf("r=%d", r);
+}
+static void mk_sm9(const char *kind) {
+	static uint8_t buf[2048]; uint8_t *p = buf; size_t len = 0;
+	if (!strncmp(kind, "sm9p8", 5)) {
+		if (!strcmp(kind, "sm9p8smsk") || !strcmp(kind, "sm9p8sk")) { SM9_SIGN_MASTER_KEY *m = malloc(sizeof *m); SM9_SIGN_KEY *k = malloc(sizeof *k); sm9_sign_master_key_generate(m);
+			if (kind[6] == 'm') sm9_sign_master_key_info_encrypt_to_der(m, "pw", &p, &len); else { sm9_sign_master_key_extract_key(m, "alice", 5, k); sm9_sign_key_info_encrypt_to_der(k, "pw", &p, &len); } free(m); free(k); }
+		else { SM9_ENC_MASTER_KEY *m = malloc(sizeof *m); SM9_ENC_KEY *k = malloc(sizeof *k); sm9_enc_master_key_generate(m);
+			if (kind[6] == 'm') sm9_enc_master_key_info_encrypt_to_der(m, "pw", &p, &len); else { sm9_enc_master_key_extract_key(m, "bob", 3, k); sm9_enc_key_info_encrypt_to_der(k, "pw", &p, &len); } free(m); free(k); }
+		if (len) puthex(buf, len); else printf("ERR"); return; }
+	if (!strncmp(kind, "sm9s", 4)) { SM9_SIGN_MASTER_KEY *m = malloc(sizeof *m); SM9_SIGN_KEY *k = malloc(sizeof *k); sm9_sign_master_key_generate(m);
+		if (!strcmp(kind, "sm9smpk")) sm9_sign_master_public_key_to_der(m, &p, &len); else if (!strcmp(kind, "sm9smsk")) sm9_sign_master_key_to_der(m, &p, &len);
+		else { sm9_sign_master_key_extract_key(m, "alice", 5, k); sm9_sign_key_to_der(k, &p, &len); } free(m); free(k); }
+	else { SM9_ENC_MASTER_KEY *m = malloc(sizeof *m); SM9_ENC_KEY *k = malloc(sizeof *k); sm9_enc_master_key_generate(m);
+		if (!strcmp(kind, "sm9empk")) sm9_enc_master_public_key_to_der(m, &p, &len); else if (!strcmp(kind, "sm9emsk")) sm9_enc_master_key_to_der(m, &p, &len);
+		else { sm9_enc_master_key_extract_key(m, "bob", 3, k); sm9_enc_key_to_der(k, &p, &len); } free(m); free(k); }
+	if (len) puthex(buf, len); else printf("ERR");
+}
+static int handle_det(size_t nw, char **w) {
+	if (!strcmp(w[0], "mk") && nw == 2 && (!strcmp(w[1], "sm9smpk") || !strcmp(w[1], "sm9smsk") || !strcmp(w[1], "sm9sk") || !strcmp(w[1], "sm9empk") || !strcmp(w[1], "sm9emsk") || !strcmp(w[1], "sm9ek") || !strncmp(w[1], "sm9p8", 5))) { ent_seed(0x5139, -1); mk_sm9(w[1]); return 1; }
+	if (!strcmp(w[0], "fz") && nw == 5 && !strcmp(w[1], "sm9p8")) { xb in = xhex(w[4]); ent_seed(0xF00D, -1); fz_sm9p8(w[2], w[3], in); xfree(in); return 1; }
+	if (strcmp(w[0], "det") || nw != 3) return 0;
+	{ xb in = xhex(w[2]); const char *k = w[1]; det_bad = 0; ent_seed(0xDE7, -1); printf("det");
+	  if (!strcmp(k, "cert")) det_cert(in); else if (!strcmp(k, "crl")) det_crl(in); else if (!strcmp(k, "req")) det_req(in); else if (!strcmp(k, "cms")) det_cms(in);
+	  else if (!strcmp(k, "sm9sig")) det_sm9sig(in); else if (!strcmp(k, "sm9smpk")) det_sm9smpk(in); else if (!strcmp(k, "sm9smsk")) det_sm9smsk(in); else if (!strcmp(k, "sm9sk")) det_sm9sk(in);
+	  else if (!strcmp(k, "sm9empk")) det_sm9empk(in); else if (!strcmp(k, "sm9emsk")) det_sm9emsk(in); else if (!strcmp(k, "sm9ek")) det_sm9ek(in);
+	  else if (!strcmp(k, "sm2pub")) det_sm2pub(in); else if (!strcmp(k, "sm2priv")) det_sm2priv(in); else printf(" bad-kind");
+	  printf(det_bad ? " BAD" : " DETERMINED"); xfree(in); }
+	return 1;
+}
+
 static void handle(size_t nw, char **w) {
+	if (handle_det(nw, w)) return;
 	if (handle_cap(nw, w)) return;
+	if (handle_seq(nw, w)) return;
 	if (!strcmp(w[0], "mk") && nw == 2) { ent_seed(0xC06, -1); do_mk(w[1]); return; }
 	if (!strcmp(w[0], "fz") && nw == 3 && !strcmp(w[1], "tagname")) { fz_tagname(w[2]); return; }
 	if (!strcmp(w[0], "fz") && nw == 4 && !strcmp(w[1], "pem")) { xb in = xhex(w[3]); fz_pem(w[2], in); xfree(in); return; }
